@@ -275,7 +275,7 @@ class MailDriver:
             "internal": internal, "env": f.get("env", 0),
             "vt": f.get("vt", 0), "watchdog": bool(f.get("watchdog", False)),
             "text": f.get("text", ""),
-            "found": f.get("found", []),
+            "found": f.get("found", []), "key": f.get("key", ""),
             "st": self.state(),
         }
         if not ev["env"]:
@@ -459,7 +459,7 @@ class MailDriver:
 
     async def search(self, s, key, uid=False):
         text = f"{'UID ' if uid else ''}SEARCH {key}"
-        return (await self.run("Search", s, text, kind="SEARCH", uid=uid))[0]
+        return (await self.run("Search", s, text, kind="SEARCH", uid=uid, key=key))[0]
 
     async def expunge(self, s, elems=None):
         if elems is not None:
